@@ -159,3 +159,72 @@ func c07JoinAfterTrim(run *evid.Run, x *hx.Exec, h *hx.History, e *entry.Entry, 
 	run.Violate("C07/tampered-entry-merged", det("mutation", name, "codec", h.Codec, "after", "bounded merge that validated and trimmed the genuine entry"), wt,
 		"an entry tampered by %s was merged without failing verification after the genuine entry had been validated and trimmed out by an earlier size-bounded merge (codec %s)", name, h.Codec)
 }
+
+// c07JoinBounded: the only place the library verifies is Join, also with a size bound. The offered log is
+// branched (a chain and a short side branch, two heads); one entry of the chain is tampered; the merge is
+// size-bounded with every bound from 1 to beyond the total: a tampered entry must never be in the log afterwards.
+func c07JoinBounded(run *evid.Run, x *hx.Exec, h *hx.History, e *entry.Entry, rng *rand.Rand, wit func(string) map[string]any) {
+	w := x.W
+	wr := 0
+	if len(w.Idents) > 1 {
+		wr = 1
+	}
+	b, c := w.NewLog(0), w.NewLog(wr)
+	nb := 3 + rng.Intn(6)
+	var chain []iface.IPFSLogEntry
+	for k := 0; k < nb; k++ {
+		ce, err := b.Append(w.Ctx, []byte(fmt.Sprintf("%d.%d/bb%d", h.Seed, h.Idx, k)), nil)
+		if err != nil {
+			return
+		}
+		chain = append(chain, ce)
+	}
+	side := []iface.IPFSLogEntry{}
+	for k := 0; k < 1+rng.Intn(2); k++ {
+		ce, err := c.Append(w.Ctx, []byte(fmt.Sprintf("%d.%d/bc%d", h.Seed, h.Idx, k)), nil)
+		if err != nil {
+			return
+		}
+		side = append(side, ce)
+	}
+	pos := rng.Intn(nb)
+	victim := chain[pos].(*entry.Entry)
+	ms := mutations(e)
+	var v *entry.Entry
+	var name string
+	for try := 0; try < 20 && v == nil; try++ {
+		mu := ms[rng.Intn(len(ms))]
+		if mu.field != "payload" && mu.field != "sig" {
+			continue // keeps clock, links and id: the tampered entry stays where it is in the order and in the DAG
+		}
+		cl := cloneEntry(victim)
+		if mu.apply(cl, rng) {
+			v, name = cl, mu.name
+		}
+	}
+	if v == nil {
+		return
+	}
+	ents := append(append([]iface.IPFSLogEntry(nil), chain...), side...)
+	ents[pos] = v
+	total := len(ents)
+	for size := 1; size <= total+1; size++ {
+		lo := w.LogOpts(w.LogID)
+		lo.Entries = entry.NewOrderedMapFromEntries(ents)
+		lo.Heads = []iface.IPFSLogEntry{ents[nb-1], side[len(side)-1]}
+		offered, err := ipfslog.NewLog(w.Store.API(), w.Idents[0], lo)
+		if err != nil {
+			return
+		}
+		dst := w.NewLog(0)
+		_, jerr := dst.Join(offered, size)
+		run.Count("join_level_tamper_checks_with_a_size_bound", 1)
+		if got, in := dst.Get(victim.Hash); in && hx.ContentDigest(got) != hx.ContentDigest(victim) {
+			wt := wit(name)
+			wt["sequence"] = fmt.Sprintf("offered log: chain of %d (entry #%d tampered by %s) + side branch of %d, two heads; Join(offered, %d) returned %v", nb, pos, name, len(side), size, jerr)
+			run.Violate("C07/tampered-entry-merged", det("mutation", name, "codec", h.Codec, "bounded", true), wt,
+				"a size-bounded merge (bound %d of %d offered entries) admitted an entry tampered by %s at depth %d of a branched log (codec %s)", size, total, name, nb-1-pos, h.Codec)
+			return
+		}
+	}
+}
